@@ -659,7 +659,7 @@ func checkC19(r *Report) {
 	tableTrusted(r)
 	cmpTrusted(r)
 	effectTrusted(r)
-	r.Explain = "Structural clauses of 'attribute sets are values with a faithful text form'. C19.a CLONE-COMPLETE: attr.Set.Clone, dep.Type.Clone and version.AttrSet.Clone set every field of their result, and no map/slice/pointer field is copied by reference (it must come from make or a nested Clone). C19.b COVER: attr.Set.Compare reads Mask, attrBits and attrs of both operands, and the dep/version wrappers delegate to it. C19.c WRITERS: the attrs map is written only by SetAttr and Clone, and SetAttr updates attrBits from the same key on every path after the map update. C19.d FRESH-SET: every call of SetAttr/AddAttr in scope acts on a set that is not client- or cache-owned memory (zero value, constructor, Clone, or the mutator's own receiver). C19.f QUOTE-AGREE: versiontest.String and versiontest.ParseString (documented as inverse) agree on quoting — the parser unquotes exactly when the writer quotes. C19.e KEY-TABLES: the key lists of the text parsers (deptest/versiontest allKeys) enumerate every declared AttrKey constant, flagKeys ⊇ the mask keys, lower-cased key names are pairwise distinct, mask keys are distinct single bits below 1<<maskLen, value keys are distinct and below 64 (SetAttr panics above), and dep.Type.String mentions every mask key. Not decided: quoting of values with spaces in the text form; the order laws over all triples."
+	r.Explain = "Structural clauses of 'attribute sets are values with a faithful text form'. C19.a CLONE-COMPLETE: attr.Set.Clone, dep.Type.Clone and version.AttrSet.Clone set every field of their result, and no map/slice/pointer field is copied by reference (it must come from make or a nested Clone). C19.b COVER: attr.Set.Compare reads Mask, attrBits and attrs of both operands, and the dep/version wrappers delegate to it. C19.c WRITERS: the attrs map is written only by SetAttr and Clone, and SetAttr updates attrBits from the same key on every path after the map update. C19.d FRESH-SET: every call of SetAttr/AddAttr in scope acts on a set that is not client- or cache-owned memory (zero value, constructor, Clone, or the mutator's own receiver). C19.g MAP-ORDER / SIGN-SYMMETRIC: the three-way comparators of attr.Set, dep.Type and version.AttrSet never iterate over a map (the sign would follow Go's randomised iteration order) and return mirrored constants. C19.f QUOTE-AGREE: versiontest.String and versiontest.ParseString (documented as inverse) agree on quoting — the parser unquotes exactly when the writer quotes. C19.e KEY-TABLES: the key lists of the text parsers (deptest/versiontest allKeys) enumerate every declared AttrKey constant, flagKeys ⊇ the mask keys, lower-cased key names are pairwise distinct, mask keys are distinct single bits below 1<<maskLen, value keys are distinct and below 64 (SetAttr panics above), and dep.Type.String mentions every mask key. Not decided: quoting of values with spaces in the text form; the order laws over all triples."
 	// a. CLONE-COMPLETE
 	for _, name := range []string{"(resolve/internal/attr.Set).Clone", "(*resolve/dep.Type).Clone", "(resolve/version.AttrSet).Clone"} {
 		f := p.lookupFn(name)
@@ -774,6 +774,11 @@ func checkC19(r *Report) {
 	keyTablesRule(r, p, "resolve/version", "resolve/internal/versiontest", false)
 	// f. QUOTE-AGREE
 	quoteAgreeRule(r, p, "C19.f/QUOTE-AGREE", "resolve/internal/versiontest.String", "resolve/internal/versiontest.ParseString")
+	// g. comparators of attribute sets: deterministic and mirrored
+	cfs := threeWayFns(p, "resolve/internal/attr", "resolve/dep", "resolve/version")
+	nM := mapOrderRule(r, p, "C19.g/MAP-ORDER", cfs)
+	signSymmetryRule(r, p, "C19.g/SIGN-SYMMETRIC", cfs)
+	r.floor("C19.g/MAP-ORDER", "three-way comparators of attr, dep and version", nM, 2)
 }
 
 // quoteAgreeRule: a writer and the parser documented as its inverse agree on
